@@ -83,6 +83,29 @@ CLAIMED["C08"] = dict(
     note=("Reference lints come from the same harper-core; independent are the position arithmetic, the span->range->edit path and the range->span lookup. "
           "Positions inside surrogate pairs are not probed."),
     technique=TECH + "; lsp-sim sequential sessions: editor model with independent UTF-16 arithmetic probes every position of every diagnostic")
+CLAIMED["C14"] = dict(
+    engine="api-sim",
+    category="exploration",
+    text=("Histories (6-36 operations) of lint / ignore the k-th lint / edit (prepend, append, insert, delete, replace, quotes, astral characters, "
+          "duplicated text) / export-clear-import / language switch on two long-lived objects: the core IgnoredLints+LintGroup pair as harper-ls drives it, "
+          "and harper_wasm::Linter. There is no fault or schedule dimension for this state; what is simulated is histories against a reference model, and the "
+          "evidence says so. Model: ignored lint identities (kind, message, suggestions, priority, flagged text, token texts within two characters either side), "
+          "tracked through edits while their neighbourhood is untouched. After every lint: a tracked ignored lint is absent; every lint of a fresh linter whose "
+          "identity differs from all ignored ones is present; nothing is invented; export/clear/import changes nothing."),
+    design_ref="DESIGN.md §3 C14",
+    note="Lints with an identity equal to an ignored one elsewhere in the text may be hidden or shown. Reference lints come from a fresh linter of the same library.",
+    technique=TECH + "; api-sim: seeded operation histories on long-lived IgnoredLints / harper_wasm::Linter vs an identity model")
+CLAIMED["C16"] = dict(
+    engine="api-sim",
+    category="exploration",
+    text=("Histories (6-36 calls) on one long-lived harper_wasm::Linter compiled natively, in all four dialects and both languages: lint, edits, language switches, "
+          "ignore_lint, import_words, export_words into a new linter, export/clear/import of the ignore list, set/get configuration, apply_suggestion, JSON round "
+          "trips of Lint/Span/Suggestion, statistics file round trip. No fault or schedule dimension (single-threaded object without I/O): histories against a model. "
+          "After every lint: spans inside the text, non-overlapping, problem text = text[span]; the result equals that of a fresh Linter brought to the model's state by the "
+          "shortest history (refinement); ignore removes that lint and nothing else; apply_suggestion equals an independent splice; every round trip restores behaviour."),
+    design_ref="DESIGN.md §3 C16",
+    note="The wasm-bindgen JS glue (JsValue-returning methods) is not executed; the Rust methods behind it are. One genuine finding (case-variant words) is listed in known_findings.jsonl.",
+    technique=TECH + "; api-sim: seeded call histories on the JS-facing Linter vs a fresh Linter reached by the canonical history")
 CLAIMED["C19"]["engine"] = "io-sim"
 CLAIMED["C19"]["text"] += (" A further batch drives the real harper-ls save_stats through lsp-sim: HarperRecordLint commands with server-provided payloads, "
                             "several server lifetimes appending to one statistics file, short writes and EINTR injected at the libc write seam.")
@@ -104,8 +127,6 @@ NA = {
 # properties whose check is designed (DESIGN.md) but not registered yet
 PENDING = {
   "C05": "designed (DESIGN.md §3 C05, engine cache-sim) but the check is not built yet; not claimed until it is",
-  "C14": "designed (DESIGN.md §3 C14, engine api-sim) but the check is not built yet; not claimed until it is",
-  "C16": "designed (DESIGN.md §3 C16, engine api-sim) but the check is not built yet; not claimed until it is",
 }
 
 def main():
